@@ -55,6 +55,10 @@ R_step(o) ==
        /\ r.exit = o.exit
        /\ IF o.cmd.name = "compact"
             THEN ZeroView(Ops!View(Ops!Replay(r.log))) = ZeroView(Ops!View(Ops!Replay(o.logpost)))
+            ELSE IF o.cmd.name = "prune"       \* tombstones are written in id order; ids are opaque here
+            THEN /\ Len(r.log) = Len(o.logpost)
+                 /\ P!IsPrefix(o.logpre, o.logpost)
+                 /\ ToSet(ZeroTs(r.log)) = ToSet(ZeroTs(o.logpost))
             ELSE ZeroTs(r.log) = ZeroTs(o.logpost)
 R_reply(o) ==
   Modelled(o.cmd) /\ o.out.json /\ o.exit = 0 /\ Ops!Replay(o.logpre).err = "" =>
@@ -83,7 +87,7 @@ ClauseNames ==
     "C09_exact", "C09_dryrun", "C09_gone", "C09_refused", "C09_noreissue",
     "C10_unchanged",
     "C11_invalid_refused", "C11_adds_exactly", "C11_preserves",
-    "C12_function_of_log", "C12_reads_pure", "C12_history_grows",
+    "C12_function_of_log", "C12_reads_pure", "C12_history_grows", "C12_readable", "C12_consistent",
     "C14_ref", "C14_epics_flat", "C14_bad_refused",
     "C15_progress", "C15_waits", "C15_claim",
     "C16_one_value", "C16_truth",
@@ -126,6 +130,8 @@ Eval(n, o) ==
     [] n = "C12_function_of_log" -> P!C12_function_of_log(o)
     [] n = "C12_reads_pure" -> P!C12_reads_pure(o)
     [] n = "C12_history_grows" -> P!C12_history_grows(o)
+    [] n = "C12_readable" -> P!C12_readable(o)
+    [] n = "C12_consistent" -> P!C12_consistent(o)
     [] n = "C14_ref" -> P!C14_ref(o)
     [] n = "C14_epics_flat" -> P!C14_epics_flat(o)
     [] n = "C14_bad_refused" -> P!C14_bad_refused(o)
